@@ -48,7 +48,7 @@ func init() {
 		Explanation: "(R1) uniqueNonFilteredPublications appends an entry only when it is not a filtered marker (Time != -1) and its offset was not seen; (R2) MergePublications sorts the concatenation by offset before deduplicating; " +
 			"(R3) every failure return sits inside the buffered-publications branch, behind an offset-discontinuity test, and is taken only when no skipped offset covers the hole.",
 		NotDecided: "the value-level 'exactly when' of the hole test.",
-		Rules: map[string]string{"C39.R1": "K2 guards on the append", "C39.R2": "K1 sort before dedup", "C39.R3": "K2 guards on false returns"},
+		Rules: map[string]string{"C39.R1": "K2 guards on the append", "C39.R2": "K1 sort before dedup", "C39.R3": "K2 guards on false returns", "C39.R4": "value flow: the (duplicate-carrying) placeholder offsets are used only as a set"},
 		Run:   runC39,
 	})
 }
@@ -621,5 +621,121 @@ func runC39(c *Ctx) {
 			c.Check("C39.R3", r, "failure only when no filtered placeholder covers the hole", skipAware, "offsets withheld by the filter are not gaps")
 		})
 		c.Anchor("C39.R3", "failure returns of MergePublications", k >= 1)
+		runC39SetUse(c, mp)
 	}
+}
+
+// runC39SetUse (C39.R4): the offsets of filtered placeholders are collected without de-duplication (a
+// filtered publication present in both the recovered and the buffered set contributes its offset twice),
+// so the gap test may use them only as a *set*: emptiness, membership (slices.Contains, an equality
+// scan, or a map built from them). Counting, positional indexing or binary search over them is wrong
+// exactly when an offset is duplicated — a hole is then hidden or invented.
+func runC39SetUse(c *Ctx, mp *ssa.Function) {
+	w := c.W
+	var src ssa.Value
+	EachInstr(mp, func(in ssa.Instruction) {
+		if call, ok := in.(*ssa.Call); ok {
+			if cal := call.Call.StaticCallee(); cal != nil && cal.Name() == "uniqueNonFilteredPublications" {
+				for _, r := range *call.Referrers() {
+					if ex, ok := r.(*ssa.Extract); ok && ex.Index == 2 {
+						src = ex
+					}
+				}
+			}
+		}
+	})
+	if !c.Anchor("C39.R4", "skipped placeholder offsets returned by uniqueNonFilteredPublications", src != nil) {
+		return
+	}
+	// does the producer de-duplicate? (then any use is fine)
+	prod := w.Func("internal/recovery", "uniqueNonFilteredPublications")
+	nUses := 0
+	seen := map[ssa.Value]bool{}
+	var visit func(v ssa.Value)
+	elemOK := func(ia ssa.Value) (bool, string) {
+		// element loads: only equality comparisons or use as a map key
+		for _, r := range *ia.Referrers() {
+			ld, ok := r.(*ssa.UnOp)
+			if !ok {
+				return false, "element address escapes"
+			}
+			for _, u := range *ld.Referrers() {
+				switch x := u.(type) {
+				case *ssa.BinOp:
+					if x.Op != token.EQL && x.Op != token.NEQ {
+						return false, "element compared with " + x.Op.String() + " (order/counting, not membership)"
+					}
+				case *ssa.MapUpdate:
+					if x.Key != ssa.Value(ld) {
+						return false, "element stored as a map value"
+					}
+				case *ssa.DebugRef:
+				default:
+					return false, "element used by " + strings.SplitN(u.String(), " ", 2)[0]
+				}
+			}
+		}
+		return true, ""
+	}
+	visit = func(v ssa.Value) {
+		if v == nil || seen[v] || v.Referrers() == nil {
+			return
+		}
+		seen[v] = true
+		for _, r := range *v.Referrers() {
+			switch x := r.(type) {
+			case *ssa.DebugRef:
+			case *ssa.Phi:
+				visit(x)
+			case *ssa.Store:
+				if al, ok := x.Addr.(*ssa.Alloc); ok && x.Val == v {
+					for _, rr := range *al.Referrers() {
+						if u, ok := rr.(*ssa.UnOp); ok && u.X == al {
+							visit(u)
+						}
+					}
+				}
+			case *ssa.Call:
+				nUses++
+				if b, ok := x.Call.Value.(*ssa.Builtin); ok && b.Name() == "len" {
+					// only compared with zero
+					okZero := true
+					for _, u := range *x.Referrers() {
+						if bo, ok := u.(*ssa.BinOp); ok {
+							if k, isC := constIntOf(bo.Y); !isC || k != 0 {
+								okZero = false
+							}
+						} else if _, dbg := u.(*ssa.DebugRef); !dbg {
+							okZero = false
+						}
+					}
+					c.Check("C39.R4", x, "number of placeholder offsets used only as an emptiness test", okZero, "the count includes duplicates: comparing it with a range length hides a missing offset behind a duplicated placeholder")
+					continue
+				}
+				cal := x.Call.StaticCallee()
+				okC := cal != nil && cal.Object() != nil && cal.Object().Pkg() != nil && cal.Object().Pkg().Path() == "slices" && (cal.Object().Name() == "Contains" || cal.Object().Name() == "Index")
+				name := "?"
+				if cal != nil {
+					name = cal.Name()
+				}
+				c.Check("C39.R4", x, "placeholder offsets queried by membership only", okC, "call "+name+": the slice may hold the same offset twice (recovered ∩ buffered), so a positional or binary-search based range test is wrong exactly in the history/live overlap window")
+			case *ssa.IndexAddr:
+				nUses++
+				ok, why := elemOK(x)
+				c.Check("C39.R4", x, "placeholder offsets read element-wise only for equality / set building", ok, why+": duplicates make counting or ordering arguments over the slice unsound")
+			case *ssa.Slice:
+				nUses++
+				c.Check("C39.R4", x, "placeholder offsets are not resliced", false, "positional reasoning over a multiset")
+			default:
+				if _, isRet := r.(*ssa.Return); isRet {
+					continue
+				}
+				nUses++
+				c.Check("C39.R4", r, "placeholder offsets used as a set", false, "unrecognised use "+strings.SplitN(r.String(), " ", 2)[0])
+			}
+		}
+	}
+	visit(src)
+	_ = prod
+	c.Anchor("C39.R4", "uses of the placeholder offsets in MergePublications", nUses >= 2)
 }
